@@ -2,3 +2,4 @@ import NbdimeProofs.Lemmas.SeqAbstract
 import NbdimeProofs.Lemmas.SeqBridge
 import NbdimeProofs.Properties.C02
 import NbdimeProofs.Properties.C14
+import NbdimeProofs.Properties.C12
